@@ -281,7 +281,7 @@ def renameDmm (r : ReplaySt) (n : ChName) : ChName :=
 
 /-- The call with its channel argument switched (`sw_channel_args` / `sw_channel_kw_args`):
 `declare_channel`, `config_detuning_map` (`config_slm_mask`), `add_dmm_detuning`, and — since the
-repair of F18r (/repo) — `delay` and `align`, the other calls that can name a DMM channel.
+repair of F18r (/repo d02eba4b) — `delay` and `align`, the other calls that can name a DMM channel.
 `legacy = true` is the replay before that repair: `delay` / `align` keep the *old* name. -/
 def renameOp (legacy : Bool) (r : ReplaySt) (op : Op) : Except SwitchErr (ReplaySt × Op) :=
   match op with
